@@ -57,6 +57,7 @@ def install(st):
     st.closure_arrays = False
     st.shape_checks = True
     st.list_arrays = True
+    st.isclose_with_tolerance = True      # np.isclose is NOT an equivalence relation: modelled with its tolerances here
 
 
 def leaf_contains(I, fr, self, item):
